@@ -173,8 +173,10 @@ Proof.
   - (* SEpr *) intros kk body IH st code st' H k Hk. cbn [lower_stmt] in H. destruct kk.
     + destruct body; [|discriminate]. inv_ok H. destruct Hk.
     + destruct body; [|discriminate].
-      destruct (transient 5 st); cbn [bind] in H; [|discriminate]. inv_ok H. destruct Hk.
-    + destruct (take st) as [[r1 s1]|e] eqn:H1; cbn [bind] in H; [|discriminate].
+      destruct (transient 5 _); cbn [bind] in H; [|discriminate]. inv_ok H. destruct Hk.
+    + eapply free_same; [exact (proj1 (epr_arrays_same narr true st))|].
+      remember (epr_arrays narr true st) as st0 eqn:Est0. clear Est0 st. rename st0 into st.
+      destruct (take st) as [[r1 s1]|e] eqn:H1; cbn [bind] in H; [|discriminate].
       destruct (take s1) as [[r2 s2]|e] eqn:H2; cbn [bind] in H; [|discriminate].
       destruct (take s2) as [[r3 s3]|e] eqn:H3; cbn [bind] in H; [|discriminate].
       destruct (transient 4 s3) as [s4|e] eqn:E4; cbn [bind] in H; [|discriminate].
@@ -186,7 +188,9 @@ Proof.
       assert (A5 : l_act s5 = l_act s4).
       { destruct corr; [exact (proj1 (transient_facts _ _ _ E5))|inversion E5; reflexivity]. }
       eapply free_same with (a := s5); [congruence|]. eapply IH; eauto.
-    + destruct (take st) as [[r1 s1]|e] eqn:H1; cbn [bind] in H; [|discriminate].
+    + eapply free_same; [exact (proj1 (epr_arrays_same narr false st))|].
+      remember (epr_arrays narr false st) as st0 eqn:Est0. clear Est0 st. rename st0 into st.
+      destruct (take st) as [[r1 s1]|e] eqn:H1; cbn [bind] in H; [|discriminate].
       destruct (lower_block fd body s1) as [[cb_ s2]|e] eqn:Hb; cbn [bind] in H; [|discriminate].
       destruct (transient 4 s2); cbn [bind] in H; [|discriminate].
       inv_ok H. cbn in Hk. eapply free_take; [exact H1|]. eapply IH; eauto.
